@@ -118,14 +118,20 @@ theorem C07_bound_to_place (s s' : RStore) (cand : RoomNode) (h : accept Defects
   intro room old merged upd _ _ hprep
   exact (prepareWithHistory_sound hprep).roomRow rfl
 
-/-- **C07_partial.** On every candidate that passes `candGuard` (placing references signed by the
-    entries' authors with the right label and source entity; room row unchanged or newer and signed by
-    an admin; no new group carrying user-admin entries) the code as written decides exactly as the
-    intended checks do — so sections 1 and 2 apply to it. What is missing relative to the full
-    statement is exactly the witnesses of section 3. -/
+/-- **C07_partial.** On every candidate that passes `candGuard` — today only: the placing references
+    are signed by the entries' authors with the right label and source entity — the code as written
+    decides exactly as the intended checks do, so sections 1 and 2 apply to it. What is missing
+    relative to the full statement is exactly the `placingEdge` witnesses of section 3 (and the order
+    of same-date entries). -/
 theorem C07_partial (s : RStore) (cand : RoomNode) (g : candGuard s cand = true) :
     accept Defects.asImplemented s cand = accept Defects.none s cand :=
   accept_congr g
+
+/-- the same for /repo before the fix 77018f3, under the stronger guard that was needed then
+    (room row unchanged or newer and signed by an admin; no new group carrying user-admin entries) -/
+theorem C07_partial_beforeFixes (s : RStore) (cand : RoomNode) (g : candGuardBeforeFixes s cand = true) :
+    accept Defects.beforeFixes s cand = accept Defects.none s cand :=
+  accept_congr_beforeFixes g
 
 /-! ## 3. the code as written: witnesses of the deviations -/
 
@@ -207,23 +213,28 @@ theorem C07_breaks_placingEdge_label :
     accept Defects.none w0 cand1 = .err .inconsistent := by
   decide
 
-/-- **room row replaced unchecked.** A candidate whose room row is signed by key 6 and claims entity
-    `B` (2), together with one honest new user entry: accepted; the stored room row is overwritten;
-    `RoomNode::read` no longer finds the room and every later definition — here the honest one — is
-    refused with "the room exists should have an existing old_room_node". -/
+/-- **room row replaced unchecked — fixed in /repo 77018f3, kept as a regression witness about
+    `Defects.beforeFixes`.** A candidate whose room row is signed by key 6 and claims entity `B` (2),
+    together with one honest new user entry, was accepted; the stored room row was overwritten;
+    `RoomNode::read` no longer found the room and every later definition — here the honest one — was
+    refused with "the room exists should have an existing old_room_node". The code as it is now
+    refuses the candidate, as the intended checks do. -/
 theorem C07_breaks_roomRowUnchecked :
     let cand := { room10 with node := row 10 2 700 6 (.other 0),
                               authNodes := [{ g102 with userNodes := g102.userNodes ++ [row 111 102 300 0 (.user 1 true)],
                                                          userEdges := g102.userEdges ++ [edge 102 101 34 111 300 0] }] }
-    let s1 := stateOf (accept Defects.asImplemented w0 cand)
+    let s1 := stateOf (accept Defects.beforeFixes w0 cand)
     (readBack w0 10).isSome = true ∧ readBack s1 10 = none ∧
-    accept Defects.asImplemented s1 room10 = .err .noHistory ∧
+    accept Defects.beforeFixes s1 room10 = .err .noHistory ∧
+    accept Defects.asImplemented w0 cand = .err .notAuthorised ∧
     accept Defects.none w0 cand = .err .notAuthorised := by
   decide
 
-/-- **#33: user-admin entries of a new group are not checked.** Admin key 0 signs a new, empty group
-    120 with an `A` right. A relaying peer adds to it the entries "key 6 is a user admin" and "key 6 is a
-    user", both signed by key 6 itself: accepted; key 6 can write `A` rows in the room. -/
+/-- **#33: user-admin entries of a new group were not checked — fixed in /repo 77018f3, kept as a
+    regression witness about `Defects.beforeFixes`.** Admin key 0 signs a new, empty group 120 with an
+    `A` right. A relaying peer adds to it the entries "key 6 is a user admin" and "key 6 is a user",
+    both signed by key 6 itself: it was accepted and key 6 could write `A` rows in the room. The code
+    as it is now refuses the candidate. -/
 theorem C07_breaks_newGroupUserAdminUnchecked :
     let g : AuthNode :=
       { node := row 120 101 300 0 (.other 1),
@@ -234,7 +245,8 @@ theorem C07_breaks_newGroupUserAdminUnchecked :
     let cand := { room10 with authNodes := room10.authNodes ++ [g],
                               authEdges := room10.authEdges ++ [edge 10 100 33 120 300 0] }
     (loaded w0 10).can 6 1 400 .mutateSelf = false ∧
-    (loaded (stateOf (accept Defects.asImplemented w0 cand)) 10).can 6 1 400 .mutateSelf = true ∧
+    (loaded (stateOf (accept Defects.beforeFixes w0 cand)) 10).can 6 1 400 .mutateSelf = true ∧
+    accept Defects.asImplemented w0 cand = .err .notAuthorised ∧
     accept Defects.none w0 cand = .err .notAuthorised := by
   decide
 
@@ -289,6 +301,10 @@ example : candGuard w0 honestUpdate = true := by decide
 example : ∃ s', accept Defects.none w0 honestUpdate = .ok s' ∧ s'.nodes.length = 8 ∧
     (loaded s' 10).can 1 2 450 .mutateAll = true ∧ (loaded w0 10).can 1 2 450 .mutateAll = false :=
   ⟨stateOf (accept Defects.none w0 honestUpdate), by decide⟩
+-- an older room row (a peer that lags behind) does not hurt: the stored row is kept, the new entry accepted
+example : ∃ s', accept Defects.asImplemented w0 { honestUpdate with node := { row 10 100 100 0 (.other 0) with mdate := 50 } } = .ok s' ∧
+    (readBack s' 10).map (·.node.mdate) = some 100 :=
+  ⟨stateOf (accept Defects.asImplemented w0 { honestUpdate with node := { row 10 100 100 0 (.other 0) with mdate := 50 } }), by decide⟩
 -- a user entry signed by a plain user is refused, an altered stored entry is refused
 example : accept Defects.asImplemented w0
     { room10 with authNodes := [{ g102 with userNodes := g102.userNodes ++ [row 150 102 300 2 (.user 5 true)],
